@@ -174,7 +174,7 @@ add('C20',
     level='exploration',
     rule='every string up to length 5-7 over reduced alphabets of the syntactically relevant characters for printf_format, fmt(), parse_arguments (4 option tables) and to_number<int8..uint64>, plus grammar-generated/mutated longer inputs, each from an exact-size buffer (printf: exact-size va_list computed by an independent tokenizer) under ASan+UBSan; stopping through frg_panic is accepted',
     jobs=[job('parsers', 'c20_parsers.cpp', shards={'quick': 8, 'thorough': 16}, hang_is_violation=True),
-          job('fuzz', 'fuzz_parsers.cpp', flavour='fuzz', tiers=('thorough',), shards={'thorough': 12}, fuzz_runs={'thorough': 5000000}, dict='fuzz_parsers.dict', max_len=192, timeout=3000)],
+          job('fuzz', 'fuzz_parsers.cpp', flavour='fuzz', tiers=('thorough',), shards={'thorough': 12}, fuzz_runs={'thorough': 1000000}, dict='fuzz_parsers.dict', max_len=192, timeout=3000)],
     min_evaluations={'quick': 300000, 'thorough': 3000000},
     min_counters={'printf_completed': 50000, 'printf_stopped_by_assertion': 10000, 'fmt_completed': 50000, 'cmdline_completed': 50000, 'cmdline_stopped_by_assertion': 100, 'to_number_value': 10000, 'to_number_null': 10000, 'printf_long_number_cases': 500},
     assumptions=['memory safety is observed by ASan red zones around exact-size heap buffers (inputs, option targets, positional arg_list of NL_ARGMAX entries, variadic slots) and UBSan; non-adjacent wild accesses into other live memory are not observable',
